@@ -147,6 +147,27 @@ func harvestCorpus(t testing.TB) []string {
 	if !found {
 		t.Skip("esbuild test sources not found under /repo")
 	}
+	// expected bundler outputs: "---------- /out.js ----------" sections
+	snaps, _ := filepath.Glob("/repo/internal/bundler_tests/snapshots/*.txt")
+	for _, f := range snaps {
+		b, err := os.ReadFile(f)
+		if err != nil {
+			continue
+		}
+		for _, test := range strings.Split(string(b), "\n================================================================================\n") {
+			parts := strings.Split(test, "\n---------- ")
+			for _, part := range parts[1:] {
+				nl := strings.IndexByte(part, '\n')
+				if nl < 0 {
+					continue
+				}
+				name := strings.TrimSuffix(part[:nl], " ----------")
+				if strings.HasSuffix(name, ".js") || strings.HasSuffix(name, ".mjs") || strings.HasSuffix(name, ".cjs") {
+					set[part[nl+1:]] = true
+				}
+			}
+		}
+	}
 	out := make([]string, 0, len(set))
 	for s := range set {
 		out = append(out, s)
@@ -165,6 +186,10 @@ func firstLines(s string, n int) string {
 // TestCorpusAcceptance: whatever V8 accepts, jsref must accept.
 func TestCorpusAcceptance(t *testing.T) {
 	corpus := harvestCorpus(t)
+	if dump := os.Getenv("JSREF_DUMP_CORPUS"); dump != "" {
+		b, _ := json.Marshal(corpus)
+		os.WriteFile(dump, b, 0o644)
+	}
 	verdicts := v8Check(t, corpus)
 	accepted, failures := 0, 0
 	for i, src := range corpus {
